@@ -83,8 +83,11 @@ def gen_system(rng):
         elif r < 0.8:
             k = rng.choice([1, 2, 2])
             t = C(rng.choice(['f', 'g']), *[rng.choice(later + CONST[:2]) for _ in range(k)])
-        else:
+        elif r < 0.9:
             t = L([rng.choice(later + CONST[:2]) for _ in range(rng.choice([1, 2]))])
+        else:
+            # open list whose tail is another variable: closed later, possibly through a chain of variables
+            t = L([rng.choice(later + CONST[:2]) for _ in range(rng.choice([1, 2]))], rng.choice(later))
         eqs.append((vs[i], t))
     order = list(range(n))
     rng.shuffle(order)
